@@ -145,12 +145,21 @@ def after_d(chk, e, which, after, case):
           % (which, ', '.join(m + '()' for m, _ in after)), dict(case, at_fit=at_fit, after_reporting=now))
 
 
-def estimators(df, covs, g, stab, treat, which, grepr=bool, extra=(), ytype='binary'):
+def estimators(df, covs, g, stab, treat, which, grepr=bool, extra=(), ytype='binary', positional=False):
     """grepr: how the boolean option `generalize` is handed over (bool / numpy.bool_ / int: all legitimate truth values);
     extra: further columns of the caller's frame that no model uses (they may hold missing values);
     ytype: the documented outcome_type option of GTransportFormula / AIPSW.outcome_model (IPSW has none: it averages
-    whatever the outcome column holds)"""
+    whatever the outcome column holds);
+    positional (round 4): every argument handed over positionally in the documented order
+      IPSW / AIPSW(df, exposure, outcome, selection, generalize=True, weights=None),
+      GTransportFormula(df, exposure, outcome, selection, outcome_type='binary', generalize=True, weights=None),
+      IPSW.sampling_model / .treatment_model(model_denominator, model_numerator='1', bound=None, stabilized=True, print_results),
+      AIPSW.sampling_model(model_denominator, model_numerator='1', stabilized=True, print_results=True),
+      AIPSW.treatment_model as IPSW's, GTransportFormula.outcome_model(model, print_results=True),
+      AIPSW.outcome_model(model, outcome_type='binary', print_results=True)"""
     from zepid.causal.generalize import IPSW, GTransportFormula, AIPSW
+    if positional:
+        return estimators_positional(df, covs, g, stab, treat, which, grepr, extra, ytype)
     cols = covs + ['A', 'Y', 'S'] + list(extra)
     sc = gen.sat_cov(covs)
     g = grepr(g)
@@ -202,6 +211,27 @@ def estimators(df, covs, g, stab, treat, which, grepr=bool, extra=(), ytype='bin
         else:
             e.outcome_model(gen.sat_out(covs), outcome_type=OUTCOME_TYPE[ytype], print_results=False)
         e.fit()
+    return e
+
+
+def estimators_positional(df, covs, g, stab, treat, which, grepr, extra, ytype):
+    from zepid.causal.generalize import IPSW, GTransportFormula, AIPSW
+    fr = df[covs + ['A', 'Y', 'S'] + list(extra)]
+    sc, so, g = gen.sat_cov(covs), gen.sat_out(covs), grepr(g)
+    if which == 'IPSW':
+        e = IPSW(fr, 'A', 'Y', 'S', g)
+        e.sampling_model(sc, '1', None, stab, False)
+        e.treatment_model(sc, '1', None, stab, False)
+    elif which == 'GTransportFormula':
+        e = GTransportFormula(fr, 'A', 'Y', 'S', OUTCOME_TYPE[ytype], g)
+        e.outcome_model(so, False)
+    else:
+        e = AIPSW(fr, 'A', 'Y', 'S', g)
+        e.sampling_model(sc, '1', stab, False)
+        if treat:
+            e.treatment_model(sc, '1', None, stab, False)
+        e.outcome_model(so, OUTCOME_TYPE[ytype], False)
+    e.fit()
     return e
 
 
@@ -429,6 +459,9 @@ def run(chk, drv, rng, tier):
                         grepr = [bool, np.bool_, int][int(rng.integers(0, 3))]
                         case['generalize_passed_as'] = grepr.__name__
                         snap = shared.copy(deep=True)
+                        # call convention of the variant runs below (junk-Y frame, junk A and Y): keyword or positional
+                        pos = bool(rng.integers(0, 2)) and treat != 'column'
+                        case['positional_calls'] = pos
                         try:
                             e = estimators(shared, covs, g, stab, treat, which, grepr)
                         except Exception as ex:      # noqa: BLE001
@@ -449,7 +482,12 @@ def run(chk, drv, rng, tier):
                         # read after them
                         case['after'] = draw_after(rng)
                         after_d(chk, e, which, case['after'], case)
-                        ej = estimators(dfj, covs, g, stab, treat, which)
+                        try:
+                            ej = estimators(dfj, covs, g, stab, treat, which, positional=pos)
+                        except Exception as ex:      # noqa: BLE001
+                            chk.d(False, '%s runs when every argument is given positionally in the documented order' % which,
+                                  dict(case, impl_error=repr(ex)))
+                            continue
                         want_rd = float(cf[(g, 1)] - cf[(g, 0)])
                         want_rr = float(cf[(g, 1)] / cf[(g, 0)])
                         case['impl'] = [float(e.risk_difference), float(e.risk_ratio)]
@@ -459,7 +497,9 @@ def run(chk, drv, rng, tier):
                               (which, 'whole population' if g else 'non-sampled rows'), case)
                         chk.d(close(ej.risk_difference, e.risk_difference, rtol=1e-12, atol=1e-14) and
                               close(ej.risk_ratio, e.risk_ratio, rtol=1e-12, atol=1e-14),
-                              '%s unaffected by outcome values recorded outside the sample' % which, case)
+                              '%s unaffected by outcome values recorded outside the sample%s' %
+                              (which, ' (arguments given positionally in the documented order)' if pos else ''),
+                              dict(case, impl_junk_Y=[float(ej.risk_difference), float(ej.risk_ratio)]))
                         # treatment and outcome recorded (junk) outside the sample: with a saturated outcome model the
                         # result is still the standardization of the SAMPLE's cell means (IPSW fits its treatment model
                         # on the sample only; AIPSW is outcome-saturated; g-transport sets A itself)
@@ -580,7 +620,15 @@ def replay(rec):
             e = estimators(dfn, covs, c['generalize'], c['stabilized'], c['treatment_model'], c['estimator'], grepr)
             at_fit = (float(e.risk_difference), float(e.risk_ratio))
             apply_after(e, c.get('after'))      # the reporting calls of the stored case, then the results are read
-            ej = estimators(dfj, covs, c['generalize'], c['stabilized'], c['treatment_model'], c['estimator'])
+            try:
+                ej = estimators(dfj, covs, c['generalize'], c['stabilized'], c['treatment_model'], c['estimator'],
+                                positional=bool(c.get('positional_calls')))
+            except Exception as ex:      # noqa: BLE001
+                ej = ex
+        if isinstance(ej, Exception):
+            print(f['what'], '| with every argument positional in the documented order the estimator raises', repr(ej))
+            n += 1
+            continue
         g = c['generalize']
         print(f['what'], '| impl RD/RR', float(e.risk_difference), float(e.risk_ratio), '| junk-Y variant',
               float(ej.risk_difference), float(ej.risk_ratio), '| closed form', float(cf[(g, 1)] - cf[(g, 0)]),
